@@ -176,13 +176,13 @@ def r2(ctx):
         trues = sorted(op for op, vals in t.items() if vals == {1})
         mixed = [op for op, vals in t.items() if vals not in ({0}, {1})]
         rep.check(trues == [0x0C, 0x0D] and not mixed, "is_get_key_command", "true exactly for 0x0c, 0x0d", "is_get_key_command is true for %s (protocol: only GetK 0x0c and GetKQ 0x0d echo the key)" % [hex(x) for x in trues], safe_loc(f, HANDLER + "::is_get_key_command"))
-    gb = f.one(HANDLER + "::get")
     for op in (0x00, 0x09, 0x0C, 0x0D):
         hdr = Struct(None, None, 0, OrderedDict([("opcode", op)]), F(P("get_request"), "header"))
         req = Struct(None, None, 0, OrderedDict([("header", hdr)]), P("get_request"))
         I = Interp(f, policy=memc_opaque, models=BUF_MODELS)
         keys = set()
-        for pth in I.run(gb, [P("self"), req, P("response_header")]):
+        gb, gargs = dispatch.handler_body_args(ctx, "get", "get_request", op, payload=req)
+        for pth in I.run(gb, gargs):
             if isinstance(pth.ret, Struct) and pth.ret.variant == "Get":
                 keys.add(tform(field_of(pth.ret, "0", "key")))
         want = {F(P("get_request"), "key")} if op in (0x0C, 0x0D) else {("emptybytes",)}
